@@ -137,14 +137,17 @@ Definition auto_decode_text (ct : bytes) : bool := existsb (fun m => contains_su
 
 Record dcfg := {
   d_disable : bool;              (* Transport.disableAutoDecode *)
-  d_custom : option bool;        (* verdict of a caller-supplied autoDecodeContentType func, if set *)
-  d_resp_ae : bytes              (* res.Header.Get("Accept-Encoding") - sic, of the response *)
+  d_custom : option bool         (* verdict of a caller-supplied autoDecodeContentType func, if set *)
 }.
 
 Inductive decision := DNone | DCharset | DSniff.
 
-Definition decode_decision (d : dcfg) (ct : bytes) (o : ct_oracle) : decision :=
-  if d_disable d || negb (is_empty (d_resp_ae d)) then DNone
+(* [guard] = the value of the response header the function looks at first and, when non-empty,
+   leaves the body alone: res.Header.Get(<name>) - the name is regenerated from the source
+   (Gen/C07Consts.fork_autodecode_guard_header; "Accept-Encoding" in the pinned code), see
+   [guard_value] below for what the header holds at that point *)
+Definition decode_decision (d : dcfg) (guard ct : bytes) (o : ct_oracle) : decision :=
+  if d_disable d || negb (is_empty guard) then DNone
   else if negb (match d_custom d with Some v => v | None => auto_decode_text ct end) then DNone
   else if o_parse_err o then DSniff
   else match o_charset o with
@@ -179,16 +182,34 @@ Record pcfg := {
   p_dumpers : nat        (* dumpers whose ResponseBody() is on *)
 }.
 
-Definition handle_response_body (p : pcfg) (ct : bytes) (o : ct_oracle) (b : body) : body :=
+Definition handle_response_body (p : pcfg) (guard ct : bytes) (o : ct_oracle) (b : body) : body :=
   let b1 := if p_callback p then wrap_cb b else b in
-  let b2 := decode_stage (decode_decision (p_decode p) ct o) b1 in
+  let b2 := decode_stage (decode_decision (p_decode p) guard ct o) b1 in
   dump_stage (p_dumpers p) b2.
 
-Definition pipeline (st : stack) (c : tcfg) (p : pcfg) (ce ct : bytes) (o : ct_oracle) : body :=
-  handle_response_body p ct o (transport_body st c ce).
+(* did the transport rewrite the response (decode => Content-Encoding / Content-Length deleted)? *)
+Definition transport_rewrites (st : stack) (c : tcfg) (ce : bytes) : bool :=
+  match (match st with
+         | H1 => if negb (t_head c) && negb (t_wire_cl c =? 0)%Z
+                 then decide_h1 (t_head c) (t_wire_cl c) (t_asked c) (t_auto c) ce else Untouched
+         | H2 => decide_h2 (t_head c) (t_ended c) (t_asked c) (t_auto c) ce
+         | H3 => decide_h3 (t_head c) (t_asked c) (t_auto c) ce
+         end) with
+  | Untouched => false
+  | _ => true
+  end.
 
-Definition pipeline_pinned (st : stack) (c : tcfg) (p : pcfg) (ce ct : bytes) (o : ct_oracle) : body :=
-  handle_response_body p ct o (transport_body_pinned st c ce).
+(* what the guard header holds when autoDecodeResponseBody runs: the response's Accept-Encoding
+   value, or - when the guard is Content-Encoding - the coding as received unless the transport
+   decoded the body (then the header is gone) *)
+Definition guard_value (guard_is_ce : bool) (resp_ae ce : bytes) (rewritten : bool) : bytes :=
+  if guard_is_ce then (if rewritten then [] else ce) else resp_ae.
+
+Definition pipeline (st : stack) (c : tcfg) (p : pcfg) (guard ce ct : bytes) (o : ct_oracle) : body :=
+  handle_response_body p guard ct o (transport_body st c ce).
+
+Definition pipeline_pinned (st : stack) (c : tcfg) (p : pcfg) (guard ce ct : bytes) (o : ct_oracle) : body :=
+  handle_response_body p guard ct o (transport_body_pinned st c ce).
 
 (* does a content-transforming layer sit in the stack (the bytes the caller reads are then not
    the framing-level bytes)? *)
